@@ -98,3 +98,87 @@ def matrix(prop: str, repo: str, jobs: int = 16) -> dict:
         "variants": [{k: r[k] for k in ("id", "kind", "rule", "verdict", "wall_s")} | {"violations": r["violations"][:2]} for r in results],
         "broken": broken,
     }
+
+
+# ------------------------------------------------------------------------------------------------ filed corpus
+VERIF_DIR = os.path.dirname(os.path.dirname(os.path.abspath(__file__)))
+
+
+def _corpus_job(args):
+    prop, repo, kind, name, diff_path = args
+    from .ctx import Ctx
+    from .patchmem import PatchError, apply_patch
+
+    t = time.time()
+    out = {"id": name, "kind": kind, "violations": [], "error": None}
+    try:
+        with open(diff_path, encoding="utf-8") as f:
+            ov = apply_patch(repo, f.read())
+    except (PatchError, OSError) as e:
+        out.update(verdict="skipped", error=str(e), wall_s=round(time.time() - t, 2))
+        return out
+    try:
+        ctx = Ctx(repo, "quick", overrides=ov)
+        mod = importlib.import_module(f"hgxverif.props.{prop.lower()}")
+        res = mod.run(ctx)
+        res.dedupe()
+        known = load_known()
+        out["violations"] = [(o.rule, o.func, o.stmt[:120]) for o in res.obs if o.status == "violation" and match_known(prop, o, known) is None]
+    except AnalysisError as e:
+        out["error"] = f"ANALYSIS-ERROR {e}"
+    except Exception as e:  # pragma: no cover
+        out["error"] = f"{type(e).__name__}: {e}"
+    if kind == "seeded":
+        out["verdict"] = "error" if out["error"] else ("detected" if out["violations"] else "missed")
+    else:
+        out["verdict"] = "false-error" if out["error"] else ("silent" if not out["violations"] else "false-alarm")
+    out["wall_s"] = round(time.time() - t, 2)
+    return out
+
+
+def corpus(prop: str, repo: str, jobs: int = 16) -> dict:
+    """The property's rules on every filed seeded change (must report a violation, unless listed as an accepted miss)
+    and every filed behaviour-preserving refactoring (must stay silent), applied to the current sources in memory."""
+    import json
+
+    items = []
+    for kind, sub in (("seeded", "seeded"), ("refactor", "refactors")):
+        base = os.path.join(VERIF_DIR, sub)
+        if not os.path.isdir(base):
+            continue
+        for name in sorted(os.listdir(base)):
+            meta = os.path.join(base, name, "meta.json")
+            diff = os.path.join(base, name, "patch.diff")
+            if not (os.path.exists(meta) and os.path.exists(diff)):
+                continue
+            try:
+                with open(meta) as f:
+                    if json.load(f).get("property") != prop:
+                        continue
+            except ValueError:
+                continue
+            items.append((prop, repo, kind, name, diff))
+    accepted = {}
+    ap = os.path.join(VERIF_DIR, "seeded", "accepted_misses.json")
+    if os.path.exists(ap):
+        with open(ap) as f:
+            accepted = json.load(f)
+    if not items:
+        return {"summary": "no filed changes for this property", "counts": {}, "variants": [], "broken": []}
+    with ProcessPoolExecutor(max_workers=min(jobs, len(items))) as ex:
+        results = list(ex.map(_corpus_job, items))
+    counts: Dict[str, int] = {}
+    broken = []
+    for r in results:
+        v = r["verdict"]
+        if v == "missed" and r["id"] in accepted:
+            v = r["verdict"] = "missed-accepted"
+        counts[v] = counts.get(v, 0) + 1
+        if v in ("missed", "error", "false-alarm", "false-error"):
+            broken.append(f"{r['id']}: {v}" + (f" ({r['error']})" if r.get("error") else ""))
+    return {
+        "summary": f"{len(results)} filed changes: " + ", ".join(f"{k}={v}" for k, v in sorted(counts.items())),
+        "counts": counts,
+        "variants": [{k: r[k] for k in ("id", "kind", "verdict", "wall_s")} | {"violations": r["violations"][:2]} for r in results],
+        "broken": broken,
+    }
